@@ -256,35 +256,68 @@ class _PrimStub:
 # allowed to return symbolic values, which it does (they are just Python objects).
 
 
-def solve(constraints, timeout_s):
+def _smt2_text(solver, var_name):
+    return ("(set-option :produce-models true)\n(set-logic QF_BVFP)\n" + solver.to_smt2()
+            + f"\n(get-value ({var_name}))\n")
+
+
+def run_cvc5(solver, timeout_s, var_name="u"):
+    """cvc5 binary on the SMT-LIB text of the query.  Returns (result, value-or-None, seconds)."""
+    os.makedirs(os.path.join("/verif", ".work"), exist_ok=True)
+    with tempfile.NamedTemporaryFile("w", suffix=".smt2", delete=False, dir=os.path.join("/verif", ".work")) as f:
+        f.write(_smt2_text(solver, var_name))
+        path = f.name
+    t0 = time.time()
+    try:
+        p = subprocess.run(["cvc5", f"--tlimit={int(timeout_s * 1000)}", path], capture_output=True, text=True,
+                           timeout=timeout_s + 30)
+        out = (p.stdout + "\n" + p.stderr).strip()
+        lines = [ln.strip() for ln in out.splitlines() if ln.strip()]
+        first = lines[0] if lines else "unknown"
+        if first == "unsat":
+            return "unsat", None, time.time() - t0
+        if first == "sat":
+            import re
+            m = re.search(r"#b([01]+)|#x([0-9a-fA-F]+)", out)
+            if m:
+                val = int(m.group(1), 2) if m.group(1) else int(m.group(2), 16)
+                return "sat", val, time.time() - t0
+            return "unknown", None, time.time() - t0
+        return "unknown", None, time.time() - t0   # timeouts, (error ...) lines, anything else: inconclusive
+    except subprocess.TimeoutExpired:
+        return "unknown", None, time.time() - t0
+    finally:
+        try:
+            os.unlink(path)
+        except OSError:
+            pass
+
+
+def solve(constraints, timeout_s, prefer_cvc5=False):
+    """Decide one query.  8-bit: z3 in-process.  16-bit (prefer_cvc5): cvc5 binary first (fastest on these
+    QF_BVFP queries), z3 for the remaining budget if cvc5 is inconclusive."""
     s = z3.Solver()
-    s.set("timeout", int(timeout_s * 1000))
     for c in constraints:
         s.add(c)
+    spent = 0.0
+    if prefer_cvc5:
+        r, val, dt = run_cvc5(s, timeout_s * 0.6)
+        spent += dt
+        if r == "unsat":
+            return "unsat", None, spent, s, "cvc5"
+        if r == "sat":
+            return "sat", val, spent, s, "cvc5"
+    s.set("timeout", int(max(timeout_s - spent, 10) * 1000))
     t0 = time.time()
     r = s.check()
-    dt = time.time() - t0
-    return str(r), (s.model() if str(r) == "sat" else None), dt, s
+    spent += time.time() - t0
+    if str(r) == "sat":
+        return "sat", s.model(), spent, s, "z3"
+    return str(r), None, spent, s, "z3"
 
 
 def cross_check_cvc5(solver, timeout_s):
-    """second opinion from the cvc5 binary on the same SMT-LIB text; returns 'sat'/'unsat'/'unknown'."""
-    txt = "(set-logic QF_BVFP)\n" + solver.to_smt2()
-    with tempfile.NamedTemporaryFile("w", suffix=".smt2", delete=False, dir=os.path.join("/verif", ".work")) as f:
-        f.write(txt)
-        path = f.name
-    try:
-        p = subprocess.run(["cvc5", f"--tlimit={int(timeout_s * 1000)}", path], capture_output=True, text=True,
-                           timeout=timeout_s + 20)
-        out = (p.stdout + p.stderr).strip()
-        if "(error" in out or "error" in out.lower() and "unsat" not in out:
-            return "unknown"
-        first = out.splitlines()[0] if out else "unknown"
-        return first if first in ("sat", "unsat") else "unknown"
-    except subprocess.TimeoutExpired:
-        return "unknown"
-    finally:
-        os.unlink(path)
+    return run_cvc5(solver, timeout_s)[0]
 
 
 def validate_translation(e: Enc, dec_t, enc_of_dec_t, npoints=64):
@@ -325,13 +358,22 @@ def run_instance(key_json, obligation, timeout=300, exclude=(), duration=None, c
     if bad:
         return {"status": "error", "error": f"translator validation failed (encoding != real code) at {bad[:3]}"}
     base = []
-    for ex in exclude:     # known-finding predicates are {'raw': value}
+    known_hits = []
+    excluded_raws = set()
+    for ex in exclude:     # known-finding predicates are {'raw': value}: excluded from the query, re-checked concretely
         ex = ex if isinstance(ex, dict) else json.loads(ex)
-        if "raw" in ex:
+        if "raw" in ex and e.raw_min <= ex["raw"] <= e.raw_max:
             base.append(e.u != z3.BitVecVal(ex["raw"], e.bits))
+            excluded_raws.add(ex["raw"])
+            if obligation in ("RT", "MONO", "ENDS"):
+                want = e.lower if ex["raw"] == e.raw_min else (e.upper if ex["raw"] == e.raw_max else None)
+                still, detail = replay({"key": list(key), "obligation": obligation, "raw": ex["raw"], "duration": duration,
+                                        "detail": {"want": want}})
+                if still and not (obligation == "MONO" and ex["raw"] == e.raw_max):
+                    known_hits.append({"predicate": ex, "witness": detail})
     out = {"queries": 0, "solver_s": 0.0, "encoded": e.encoded, "validated_points": npts,
            "bounds": f"all 2^{e.bits} raw values of {key}", "replay_func": "replay", "samples": [],
-           "trusted": sorted(e.trusted)}
+           "trusted": sorted(e.trusted), "known_hits": known_hits}
     neg = None
     what = ""
     if obligation == "RT":
@@ -348,27 +390,36 @@ def run_instance(key_json, obligation, timeout=300, exclude=(), duration=None, c
         neg = [z3.Not(z3.And(*e.side))] if e.side else None
         what = "model side condition violated (overflow / fmod domain / cast range)"
     elif obligation in ("ENDS", "ZERO"):
-        return _point_obligation(e, obligation, out)
+        return _point_obligation(e, obligation, out, excluded_raws)
     if neg is None:
         out.update(status="proved", detail="no side conditions")
         return out
-    res, model, dt, solver = solve(base + neg, timeout)
+    res, model, dt, solver, who = solve(base + neg, timeout, prefer_cvc5=(e.bits == 16))
     out["queries"] += 1
     out["solver_s"] += round(dt, 2)
+    out["decided_by"] = who
     if res == "unsat" and cvc5:
-        r2 = cross_check_cvc5(solver, timeout)
-        out["cvc5"] = r2
+        # thorough tier: second opinion from the other solver
+        if who == "z3":
+            r2 = cross_check_cvc5(solver, timeout)
+        else:
+            solver.set("timeout", int(timeout * 1000))
+            r2 = str(solver.check())
+        out["cross_check"] = r2
         out["queries"] += 1
         if r2 == "sat":
-            out.update(status="error", error="z3 says unsat, cvc5 says sat: solvers disagree")
+            out.update(status="error", error=f"{who} says unsat, the other solver says sat: solvers disagree")
             return out
     if res == "unsat":
         out.update(status="proved", detail=f"unsat: no raw value with {what}")
         out["samples"] = [{"raw": p, "dec": e.real_dec(p)} for p in (e.raw_min, 0, e.raw_max)]
         return out
     if res == "sat":
-        rawv = model.eval(e.u, model_completion=True)
-        rawv = rawv.as_signed_long() if e.signed else rawv.as_long()
+        if isinstance(model, int):
+            rawv = model - 2 ** e.bits if (e.signed and model >= 2 ** (e.bits - 1)) else model
+        else:
+            rawv = model.eval(e.u, model_completion=True)
+            rawv = rawv.as_signed_long() if e.signed else rawv.as_long()
         out.update(status="refuted", counterexample={"key": list(key), "obligation": obligation, "raw": rawv,
                                                       "duration": duration},
                    detail=f"{what} at raw={rawv}")
@@ -377,7 +428,7 @@ def run_instance(key_json, obligation, timeout=300, exclude=(), duration=None, c
     return out
 
 
-def _point_obligation(e: Enc, obligation, out):
+def _point_obligation(e: Enc, obligation, out, excluded_raws=()):
     """ENDS / ZERO are statements about finitely many raw values: decided by evaluating the *encoding*
     (the validated terms) at those points and requiring the exact IEEE values; replayed on the real code."""
     fails = []
@@ -401,6 +452,8 @@ def _point_obligation(e: Enc, obligation, out):
     dec_t = e.dec(raw)
     enc_t = e.enc(dec_t)
     for p, want in checks:
+        if p in excluded_raws:
+            continue
         d = pysym.eval_term(dec_t, {e.u: z3.BitVecVal(p, e.bits)})
         back = pysym.eval_term(enc_t, {e.u: z3.BitVecVal(p, e.bits)})
         out["queries"] += 2
@@ -475,7 +528,7 @@ def obligations(tier, seed):
                 if ob in ("RT", "MONO", "SIDE") and e_bits == 16 and tier == "quick":
                     # quick tier: all 8-bit instances + the 16-bit ones with a per-query cap
                     pass
-                t = 120 if e_bits == 8 else (400 if tier == "quick" else 1500)
+                t = 120 if e_bits == 8 else (600 if tier == "quick" else 1800)
                 obs.append(Ob(name=f"{name}{suffix}__{ob}", module="harness.c10", func="run_instance", kind="call",
                               timeout=t, covers=covers,
                               note=f"{ob} for {key}" + (f" duration={dur}" if dur is not None else "")
